@@ -10,7 +10,7 @@
    call can have returned. *)
 From Coq Require Import List ZArith Bool.
 From PV Require Import Model.Waiter Proofs.WaiterProofs Gen.ConstGen Gen.Waiter_bridge.
-From PV Require Import Model.WaiterPool Proofs.WaiterPoolProofs.
+From PV Require Import Model.WaiterPool Proofs.WaiterPoolProofs Model.ReportQueue Proofs.ReportQueueProofs.
 From Coq Require Import Permutation.
 Import ListNotations.
 Local Open Scope Z_scope.
@@ -220,3 +220,59 @@ Example C04_example_run_length :
   map is_free (pool_final wfixed {| p_discard := true; p_per_instance := true |} [0] offs durs) = [3000000000] /\
   map is_free (pool_final wfixed {| p_discard := false; p_per_instance := true |} [0] offs durs) = [30000000000].
 Proof. vm_compute. split; reflexivity. Qed.
+
+(* ---------------------------------------------------------------------------------------- *)
+(* "... is not fired but REPORTED as a discarded sample": the path of a reported sample through
+   the phout aggregator (Model/ReportQueue.v: Report = send on a channel of capacity
+   sample-queue-size, Run = receive + write a line, drain at the end).  For every capacity and
+   every interleaving of reporters and writer (a history of completed operations): nothing is
+   dropped, and after the final drain the lines written are exactly the samples reported, in
+   order -- however large the burst of discards and however slow the writer. *)
+Theorem C04_reported_samples_all_written : forall (cap : nat) (evs : list (qev Z)) s',
+  qrun qblocking cap qinit evs = Some s' ->
+  q_written (qdrain s') = sends evs /\ q_dropped s' = [] /\ q_buf (qdrain s') = [].
+Proof. exact (blocking_report_loses_nothing Z). Qed.
+Print Assumptions C04_reported_samples_all_written.
+
+(* a reporter blocked on a full channel is always released by the writer (no deadlock) *)
+Theorem C04_blocked_reporter_is_released : forall (cap : nat) (s : qstate Z) x,
+  cap <> 0%nat -> qstep qblocking cap s (QSend x) = None -> qstep qblocking cap s QRecv <> None.
+Proof. exact (blocked_send_means_writer_can_receive Z). Qed.
+Print Assumptions C04_blocked_reporter_is_released.
+
+(* the statement is false of a Report that gives up when the channel is full *)
+Theorem C04_dropping_report_refuted :
+  exists s', qrun qdropping 1 qinit [QSend 1%nat; QSend 2%nat; QRecv] = Some s' /\
+             q_written (qdrain s') = [1%nat] /\ q_dropped s' = [2%nat].
+Proof. exact dropping_report_refuted. Qed.
+Print Assumptions C04_dropping_report_refuted.
+
+Example C04_example_report_queue :
+  exists s', qrun qblocking 1 qinit [QSend 1; QRecv; QSend 2; QSend 3] = None /\
+             qrun qblocking 1 qinit [QSend 1; QRecv; QSend 2; QRecv; QSend 3] = Some s' /\
+             q_written (qdrain s') = [1; 2; 3].
+Proof. eexists. split; [reflexivity|]. split; reflexivity. Qed.
+
+(* ---------------------------------------------------------------------------------------- *)
+(* Judging against the CONFIGURED profile when it is not known which caller consumed which token
+   (several waiters on one schedule): if every request is fired at or after the time of the token
+   it consumed -- under ANY hand-out of the tokens -- then at no instant have more requests been
+   fired than tokens of the profile were due (never_ahead_b, the specification the comp cases
+   are judged with).  A run that violates it has an early shot under every possible hand-out. *)
+Theorem C04_never_ahead_of_profile : forall toks toks' ats,
+  Permutation toks' toks -> Forall2 Z.le toks' ats -> never_ahead_b toks ats = true.
+Proof. exact paired_never_ahead. Qed.
+Print Assumptions C04_never_ahead_of_profile.
+
+(* ... and the pool model satisfies it *)
+Theorem C04_pool_never_ahead : forall v p starts offs durs,
+  Forall (Forall (fun x => 0 <= x)) durs ->
+  never_ahead_b (map (fun ks : nat * shot => s_tok (snd ks)) (run_pool v p starts offs durs))
+                (map (fun ks : nat * shot => s_entry (snd ks)) (run_pool v p starts offs durs)) = true.
+Proof. exact run_pool_never_ahead. Qed.
+Print Assumptions C04_pool_never_ahead.
+
+(* tokens at +0/+100/+600: firing at +1/+101/+601 is fine, firing the third at +100 is not *)
+Example C04_example_never_ahead :
+  never_ahead_b [0; 100; 600] [1; 101; 601] = true /\ never_ahead_b [0; 100; 600] [0; 100; 100] = false.
+Proof. split; reflexivity. Qed.
